@@ -227,3 +227,27 @@ CLAIMED["C14"] = {
             "argued from classify_false_iff + the store definition, and checked by the independent oracle; it is not a single theorem.",
     "technique": "Lean 4 theorems (case analysis, exact integer arithmetic) + differential correspondence + independent oracles",
 }
+
+CLAIMED["C13"] = {
+    "text": "Proof (partial on NaN-freedom and on the basic filter). Lean model of the whole Kalman servo and of the basic averaging "
+            "filter (estimator, covariance update, wander selection, noise estimator, steer / step / clamp, demobilize), with "
+            "binary64 values as bit patterns: comparisons, negation, abs, signum, max, clamp and the f64 <-> Duration conversions are "
+            "defined on the bits, the rounding operations (+ - * / sqrt exp) are a parameter. Theorems, for every choice of those "
+            "operations, every configuration with a finite non-negative max_freq_offset, every history of measurement / update / "
+            "demobilize calls and every pattern of clock refusals: every frequency given to the clock compares within "
+            "-max_freq_offset ..= max_freq_offset and is finite unless it is a NaN (frequency_within_bound); every step is, as a "
+            "Duration, at least the step threshold as the servo compares it (step_at_least_threshold, via monotonicity of the "
+            "bit-level f64 -> I96F32 conversion); demobilize gives the clock at most one command, a frequency within the bound, "
+            "and a servo that is gone gives none (demobilize_at_most_one_command, nothing_after_demobilize); the fresh filter a port "
+            "installs is silent until its first measurement (fresh_filter_is_silent); a port demobilises exactly when it leaves "
+            "Slave or enters / leaves Faulty (leaving_slave_demobilizes_once). Tie: the model instantiated with the processor's "
+            "binary64 operations is compared with the Rust filters after every call, bit for bit, on commands, returned values and "
+            "the complete filter state. Three genuine defects found (bound exceeded by one ulp; NaN state from zero-variance "
+            "sample sets leading to a panic; NaN frequency from the basic filter on repeated event times) were repaired by fix: commits. "
+            "Not proved: that the estimator never produces a NaN, and finiteness of the basic filter's frequency (no bound to clamp to) "
+            "- both rest on the sampled histories (oracle + correspondence).",
+    "note": "Trusted: Lean kernel; that Lean's Float operations are the binary64 operations Rust uses (checked bit-exactly by the "
+            "correspondence on every run, not proved); generators. Commands issued by a call that later panics are outside the "
+            "theorems (C03 covers panics; the oracle still checks those commands).",
+    "technique": "Lean 4 theorems over a bit-level binary64 model with uninterpreted rounding arithmetic (induction over call histories, omega) + bit-exact differential correspondence of the full filter state + independent oracle",
+}
